@@ -29,8 +29,9 @@ import (
 
 type caseT struct {
 	Index    int    `json:"index"`
-	Net      string `json:"net"`  // tcp | unix | udp
-	Mode     string `json:"mode"` // LT | ET | ONESHOT
+	Net      string `json:"net"`                // tcp | unix | udp
+	UDPBind  string `json:"udp_bind,omitempty"` // "" = 127.0.0.1 | v6 = [::1] | wild = all addresses, IPv4 remotes
+	Mode     string `json:"mode"`               // LT | ET | ONESHOT
 	Async    bool   `json:"async"`
 	Exec     string `json:"exec"` // default | goroutine | pool
 	NPoller  int    `json:"npoller"`
@@ -52,7 +53,11 @@ func (c caseT) cell() string {
 	if c.Async {
 		a = "async"
 	}
-	return fmt.Sprintf("%s/%s/%s/%s/np%d/rb%d/mr%d", c.Net, c.Mode, a, c.Exec, c.NPoller, c.ReadBuf, c.MaxReads)
+	n := c.Net
+	if c.UDPBind != "" {
+		n += "-" + c.UDPBind
+	}
+	return fmt.Sprintf("%s/%s/%s/%s/np%d/rb%d/mr%d", n, c.Mode, a, c.Exec, c.NPoller, c.ReadBuf, c.MaxReads)
 }
 
 var (
@@ -111,6 +116,12 @@ func genCase(r *h.Run, idx int) caseT {
 			c.ReadBuf = 4096 // a datagram larger than the read buffer is truncated by the kernel: not nbio's business
 		}
 		c.Total = 20 + rng.Intn(200) // datagrams per remote
+		// an IPv6 socket for a third of the UDP cases (the session key is built per address
+		// family), always with two remotes: same address, different ports
+		if v := r.Rand("c02-udpbind", idx).Intn(6); v < 2 && ipv6OK() {
+			c.UDPBind = []string{"v6", "wild"}[v]
+			c.Conns = 2
+		}
 	}
 	return c
 }
@@ -192,6 +203,12 @@ func runCase(r *h.Run, c caseT) {
 		conf.Addrs = []string{dir + "/s.sock"}
 	default:
 		conf.Addrs = []string{"127.0.0.1:0"}
+		switch c.UDPBind {
+		case "v6":
+			conf.Addrs = []string{"[::1]:0"}
+		case "wild":
+			conf.Addrs = []string{":0"} // dual-stack socket: IPv4 remotes appear as v4-mapped IPv6 addresses
+		}
 	}
 	var pool *taskpool.IOTaskPool
 	switch c.Exec {
@@ -641,6 +658,9 @@ func runCase(r *h.Run, c caseT) {
 	}
 	r.Seen("cells", fmt.Sprintf("%s/%s/async=%v/%s", c.Net, c.Mode, c.Async, c.Exec))
 	r.Seen("full_cells", c.cell())
+	if c.UDPBind != "" {
+		r.Count("udp_cases_on_an_ipv6_socket_with_two_remotes_of_one_address", 1)
+	}
 	r.Count("bytes_delivered", want)
 	r.Count("callbacks", atomic.LoadInt64(&rec.calls))
 	r.Nontrivial(fmt.Sprint(c.Index))
@@ -673,6 +693,10 @@ func udpDrops(port int) (int64, bool) {
 	b, err := os.ReadFile("/proc/net/udp")
 	if err != nil {
 		return 0, false
+	}
+	if b6, err := os.ReadFile("/proc/net/udp6"); err == nil {
+		// (same columns; the header line of the second file never matches a port)
+		b = append(b, b6...)
 	}
 	want := fmt.Sprintf(":%04X", port)
 	lines := splitLines(string(b))
@@ -723,7 +747,27 @@ func fields(s string) []string {
 	return out
 }
 
+var ipv6Once sync.Once
+var ipv6Avail bool
+
+// ipv6OK reports whether this host can open an IPv6 UDP socket on loopback.
+func ipv6OK() bool {
+	ipv6Once.Do(func() {
+		if pc, err := net.ListenPacket("udp6", "[::1]:0"); err == nil {
+			pc.Close()
+			ipv6Avail = true
+		}
+	})
+	return ipv6Avail
+}
+
 func runUDP(r *h.Run, c caseT, g *nbio.Engine, rec *recorder, addr string, rng *rand.Rand) {
+	if c.UDPBind == "wild" {
+		// the listener is bound to all addresses; the remotes are IPv4
+		if _, port, err := net.SplitHostPort(addr); err == nil {
+			addr = "127.0.0.1:" + port
+		}
+	}
 	ua, err := net.ResolveUDPAddr("udp", addr)
 	if err != nil {
 		r.Inconclusive("resolve: " + err.Error())
@@ -911,6 +955,9 @@ content:
 	}
 	r.Seen("cells", fmt.Sprintf("%s/%s/async=%v/%s", c.Net, c.Mode, c.Async, c.Exec))
 	r.Seen("full_cells", c.cell())
+	if c.UDPBind != "" {
+		r.Count("udp_cases_on_an_ipv6_socket_with_two_remotes_of_one_address", 1)
+	}
 	r.Count("datagrams_delivered", sentTotal)
 	r.Nontrivial(fmt.Sprint(c.Index))
 }
